@@ -1526,7 +1526,7 @@ func (p *Parser) evaluateReturn(ctx context) (Statement, error) {
 
 func (p *Parser) evaluateBreak(ctx context) (Statement, error) {
 	breakToken := p.eat()
-	breakScopes := []scope{SCOPE_FOR, SCOPE_SWITCH}
+	breakScopes := []scope{SCOPE_FOR} // A break within a switch is not supported by the converters (only loops can be left).
 	scopeOk := false
 
 	for _, breakScope := range breakScopes {
